@@ -712,34 +712,55 @@ def chk_e2e_depth2(m1: int, m2: int) -> bool:
     return _e2e(2, acc, Pos(0, 0, 0))
 
 
-def chk_e2e_depth2_apex(m1: int, m2: int, an: int, ax: int, ay: int) -> bool:
+def _acc12(m1, m2):
+    def acc(pos):
+        if pos.n == 1:
+            return ((m1 >> _idx(pos)) & 1) == 1
+        return ((m2 >> _idx(pos)) & 1) == 1
+    return acc
+
+
+def chk_e2e_depth2_apex1(m1: int, m2: int, ax: int, ay: int) -> bool:
     """
-    Depth 2, any sub-pyramid apex at level 1 or 2, free level-1 and level-2 filter masks.
+    Depth 2, any sub-pyramid apex at level 1, free level-1 and level-2 filter masks.
 
     pre: 0 <= m1 < 16
     pre: 0 <= m2 < 2**16
-    pre: 1 <= an <= 2 and 0 <= ax < 2**an and 0 <= ay < 2**an
+    pre: 0 <= ax < 2 and 0 <= ay < 2
     post: _
     """
-    def acc(pos):
-        if pos.n == 1:
-            return ((m1 >> _idx(pos)) & 1) == 1
-        return ((m2 >> _idx(pos)) & 1) == 1
-
-    return _e2e(2, acc, Pos(an, ax, ay))
+    return _e2e(2, _acc12(m1, m2), Pos(1, ax, ay))
 
 
-def chk_e2e_depth2_wide(m1: int, m2: int) -> bool:
+def chk_e2e_depth2_apex2(m1: int, m2: int, ax: int, ay: int) -> bool:
     """
-    Depth 2, three level-1 tiles may be accepted (thorough tier).
+    Depth 2, any sub-pyramid apex at level 2 (= a single leaf), free filter masks.
 
-    pre: 0 <= m1 < 8
+    pre: 0 <= m1 < 16
     pre: 0 <= m2 < 2**16
+    pre: 0 <= ax < 4 and 0 <= ay < 4
     post: _
     """
-    def acc(pos):
-        if pos.n == 1:
-            return ((m1 >> _idx(pos)) & 1) == 1
-        return ((m2 >> _idx(pos)) & 1) == 1
+    return _e2e(2, _acc12(m1, m2), Pos(2, ax, ay))
 
-    return _e2e(2, acc, Pos(0, 0, 0))
+
+def chk_e2e_depth2_pair02(m2: int, sel: int) -> bool:
+    """
+    Depth 2, level-1 tiles 0 and 2 (sel bit 0) or 1 and 2 (sel bit 1) accepted, free level-2 mask.
+
+    pre: 0 <= m2 < 2**16
+    pre: 0 <= sel <= 1
+    post: _
+    """
+    return _e2e(2, _acc12(5 if sel == 0 else 6, m2), Pos(0, 0, 0))
+
+
+def chk_e2e_depth2_pair3(m2: int, sel: int) -> bool:
+    """
+    Depth 2, level-1 tile 3 together with tile 0 / 1 / 2 (sel), free level-2 mask.
+
+    pre: 0 <= m2 < 2**16
+    pre: 0 <= sel <= 2
+    post: _
+    """
+    return _e2e(2, _acc12(8 | (1 << sel), m2), Pos(0, 0, 0))
